@@ -507,6 +507,25 @@ def rule_read_length(prog, fixture=False):
                     if all(x is False for x in res):
                         return False
                     return None
+                if e.get("k") == "ConditionalOperator":
+                    c, x, y = strip_all(e["c"][0]), e["c"][1], e["c"][2]
+                    bx, by = bounded(x, depth + 1), bounded(y, depth + 1)
+                    # (x < y) ? x : y  and its variants select the smaller: one bounded arm is enough
+                    is_min = False
+                    if c is not None and c.get("k") == "BinaryOperator" and c.get("op") in ("<", "<=", ">", ">="):
+                        l, r_ = c["c"][0], c["c"][1]
+                        small_first = c["op"] in ("<", "<=")
+                        if same_expr(l, x) and same_expr(r_, y) and small_first:
+                            is_min = True
+                        if same_expr(l, y) and same_expr(r_, x) and not small_first:
+                            is_min = True
+                    if is_min and (bx is True or by is True):
+                        return True
+                    if bx is True and by is True:
+                        return True
+                    if bx is False and by is False:
+                        return False
+                    return None
                 if folded(e) is not None:
                     return False
                 if e.get("k") == "DeclRefExpr" and e.get("dk") == "ParmVar":
